@@ -252,7 +252,8 @@ Proof. intros. unfold missing. apply zlen_filter_le. Qed.
 Lemma lim_create : forall s n r, cf_create_sum fx = true -> within_limits c s -> zlen n < two62 ->
   within_limits c (fst (op_create fx c clock s n r)).
 Proof.
-  intros s n r Fc L K. unfold op_create. destruct (gen_next clock s) as [g s1] eqn:G.
+  intros s n r Fc L K. unfold op_create. destruct (cf_create_gen_in_tx fx && bad_create_name n); [assumption|].
+  destruct (gen_next clock s) as [g s1] eqn:G.
   pose proof (gen_next_mboxes _ _ _ G) as M. assert (L1 : within_limits c s1) by (apply (lim_mem c s); assumption).
   destruct g as [v|]; [|assumption]. rewrite Fc. cbn [negb andb].
   repeat match goal with |- within_limits c (fst (if ?b then _ else _)) => destruct b eqn:?; cbn [fst]; [assumption|] end.
@@ -452,7 +453,8 @@ Theorem refusal_no_effect : forall s o, (forall a, snd (step' s o) <> ResOk a) -
   nonrec (s_mboxes (fst (step' s o))) = nonrec (s_mboxes s).
 Proof.
   intros s o H. destruct o; cbn [step] in *.
-  - unfold op_create in *. destruct (gen_next clock s) as [g s1] eqn:G. pose proof (gen_next_mboxes _ _ _ G) as M.
+  - unfold op_create in *. destruct (cf_create_gen_in_tx fx && bad_create_name name); [reflexivity|].
+    destruct (gen_next clock s) as [g s1] eqn:G. pose proof (gen_next_mboxes _ _ _ G) as M.
     destruct g as [v|]; [|cbn [fst]; rewrite M; reflexivity].
     repeat match goal with |- context[if ?b then _ else _] => destruct b; cbn [fst snd] in *; [rewrite M; reflexivity|] end.
     notok H.
@@ -503,7 +505,8 @@ Theorem limit_refusal_no_effect : forall s o, cf_limit_norecover fx = true -> sn
   s_mboxes (fst (step' s o)) = s_mboxes s.
 Proof.
   intros s o Fl H. destruct o; cbn [step] in *.
-  - unfold op_create in *. destruct (gen_next clock s) as [g s1] eqn:G. pose proof (gen_next_mboxes _ _ _ G) as M.
+  - unfold op_create in *. destruct (cf_create_gen_in_tx fx && bad_create_name name); [reflexivity|].
+    destruct (gen_next clock s) as [g s1] eqn:G. pose proof (gen_next_mboxes _ _ _ G) as M.
     destruct g as [v|]; [|cbn [fst]; assumption].
     repeat match goal with |- context[if ?b then _ else _] => destruct b; cbn [fst snd] in *; [assumption|] end. discriminate.
   - unfold op_delete in *. destruct (is_recov name || is_inbox name); [reflexivity|].
@@ -592,7 +595,9 @@ Theorem fitting_create_accepted : forall s n v s1, cf_create_sum fx = true -> ge
   zlen (s_mboxes s) + zlen (missing (s_mboxes s) (superiors n) ++ [n]) <= c_max_mbox c ->
   snd (op_create fx c clock s n true) = ResOk [].
 Proof.
-  intros s n v s1 Fc G Lv Rp Ib Ne Ex K K2 Cnt. unfold op_create. rewrite G. pose proof (gen_next_mboxes _ _ _ G) as M.
+  intros s n v s1 Fc G Lv Rp Ib Ne Ex K K2 Cnt. unfold op_create.
+  assert (Bn : bad_create_name n = false) by (unfold bad_create_name; rewrite Rp, Ib; destruct n; [congruence | reflexivity]).
+  rewrite Bn, andb_false_r. rewrite G. pose proof (gen_next_mboxes _ _ _ G) as M.
   rewrite Lv, Rp, Ib, Fc. cbn [orb negb andb]. destruct n as [|x t]; [congruence|]. rewrite M, Ex.
   rewrite lim_count_spec.
   - match goal with |- context[?a <=? ?b] => destruct (a <=? b) eqn:E end; [apply Z.leb_le in E; lia | reflexivity].
